@@ -58,8 +58,19 @@ func c18prog(c *Ctx, p *Prog, rel string) {
 	var exported, preds []*ssa.Function
 	var gen *ssa.Function
 	for _, fn := range p.Funcs() {
-		if fr, _ := p.Rel(fn); fr != rel || fn.Parent() != nil || fn.Signature.Recv() != nil {
+		if fr, _ := p.Rel(fn); fr != rel || fn.Parent() != nil {
 			continue
+		}
+		if recv := fn.Signature.Recv(); recv != nil {
+			// methods of a private named slice / map type are functions of their receiver
+			// (cmbs.isNonFatal(divider, quantity)); methods of structs are not helpers
+			t := recv.Type()
+			if pt, isPtr := t.Underlying().(*types.Pointer); isPtr {
+				t = pt.Elem()
+			}
+			if _, isStruct := t.Underlying().(*types.Struct); isStruct {
+				continue
+			}
 		}
 		name := fn.Name()
 		obj, _ := fn.Object().(*types.Func)
@@ -352,7 +363,7 @@ func checkU5(c *Ctx, p *Prog, fn *ssa.Function, predCalls []*ssa.Call) {
 		if a := helperCall.Call.Args[paramIndex(h, hMax)]; a != ssa.Value(maxPar) {
 			problems = append(problems, "the search is given "+p.Sym(a).String()+" as its maximum, not the caller's maximum")
 		}
-		mc, isMC := helperCall.Call.Args[paramIndex(h, testPar)].(*ssa.MakeClosure)
+		mc, isMC := stripChangeType(helperCall.Call.Args[paramIndex(h, testPar)]).(*ssa.MakeClosure) // (may be converted to a named func type)
 		if !isMC {
 			problems = append(problems, "the search predicate is not a closure built by the helper")
 		} else {
@@ -647,7 +658,7 @@ func checkU23(c *Ctx, p *Prog, fn *ssa.Function) {
 				continue
 			}
 			cal := p.Callee(call)
-			if _, isFA := p.forAllShape(cal); isFA {
+			if _, _, _, isFA := p.forAllCall(call); isFA {
 				zeroTests = append(zeroTests, call)
 			} else if cal != nil && p.IsProduct(cal) && returnsBoolOnly(cal) {
 				tolCalls = append(tolCalls, call)
@@ -664,7 +675,7 @@ func checkU23(c *Ctx, p *Prog, fn *ssa.Function) {
 		}
 		// fresh distribution: made inside the loop (v2) or nil (v1)
 		fresh := isNilConst(dc.Call.Args[2])
-		if mm, ok := dc.Call.Args[2].(*ssa.MakeMap); ok && region[mm.Block()] {
+		if mm, ok := stripRefConv(dc.Call.Args[2]).(*ssa.MakeMap); ok && region[mm.Block()] {
 			fresh = true
 		}
 		if !fresh {
@@ -683,16 +694,16 @@ func checkU23(c *Ctx, p *Prog, fn *ssa.Function) {
 		p3 = append(p3, fmt.Sprintf("expected one zero-share test per combination, found %d", len(zeroTests)))
 	} else {
 		zt := zeroTests[0]
-		over, _ := p.forAllShape(p.Callee(zt))
-		if over != "slice" {
+		over, ztList, ztDist, _ := p.forAllCall(zt)
+		if over != "slice" || ztList == nil || ztDist == nil {
 			p3 = append(p3, "the zero-share test ("+p.Callee(zt).Name()+") ranges over the entries of the distribution map: members for which the divider created no entry are not seen")
 		} else if mainDiv != nil {
-			if !isCombo(zt.Call.Args[0]) {
+			if !isCombo(ztList) {
 				p3 = append(p3, "the zero-share test is not applied to the members of the combination being visited")
 			}
 			// distribution: the map given to / returned by the main divider call
-			dist := zt.Call.Args[1]
-			if !(dist == mainDiv.Call.Args[2] || dist == ssa.Value(mainDiv)) {
+			dist := stripRefConv(ztDist)
+			if !(dist == stripRefConv(mainDiv.Call.Args[2]) || dist == ssa.Value(mainDiv)) {
 				p3 = append(p3, "the zero-share test does not look at the distribution produced for the quantity under test")
 			}
 			if !instrDominates(mainDiv, zt) {
@@ -896,6 +907,10 @@ func checkU7(c *Ctx, p *Prog, gen *ssa.Function) {
 				if ia, isIA := st.Addr.(*ssa.IndexAddr); isIA && st.Val == ssa.Value(adder.Params[1]) {
 					idx := deepStrip(p.Sym(ia.Index))
 					if idx.Op == "bin" && idx.Name == "-" && strings.Contains(idx.String(), "len(") {
+						lastSet = true
+					}
+					// the same position counted from the source: created[len(combination)]
+					if idx.Op == "call" && idx.Name == "len" && len(idx.Args) == 1 && idx.Args[0].V == ssa.Value(adder.Params[0]) {
 						lastSet = true
 					}
 				}
